@@ -46,6 +46,62 @@ def _float_dtype(dtype):
     return k not in "iub"
 
 
+def _real_dtype(dtype):
+    """a buffer NumPy would create with a real floating dtype (None = float64): under a complex-step perturbation whatever
+    is stored into it loses its imaginary part (with a ComplexWarning only)"""
+    if dtype is None:
+        return True
+    try:
+        return _np.dtype(dtype).kind == "f"
+    except TypeError:
+        return False
+
+
+def _realize(value):
+    from .sym import realpart
+
+    if isinstance(value, Sym):
+        return realpart(value)
+    if isinstance(value, _np.ndarray) and value.dtype == object:
+        out = _np.empty(value.shape, dtype=object)
+        flat_in, flat_out = value.ravel(), out.ravel()
+        for i, v in enumerate(flat_in):
+            flat_out[i] = realpart(v) if isinstance(v, Sym) else v
+        return out
+    if isinstance(value, (list, tuple)):
+        return _realize(_np.array(value, dtype=object)) if _has_sym(value) else value
+    return value
+
+
+class RealBuffer(_np.ndarray):
+    """object array standing for a *real-typed* local buffer of a component whose partials are obtained by complex step:
+    every symbolic value stored into it is wrapped in the real-part marker (value unchanged; the complex-step model of the
+    differentiator lets nothing through it).  Results of arithmetic on it are ordinary arrays (real + complex is complex)."""
+
+    def __array_finalize__(self, obj):
+        pass
+
+    def __array_ufunc__(self, ufunc, method, *inputs, out=None, **kw):
+        ins = tuple(i.view(_np.ndarray) if isinstance(i, RealBuffer) else i for i in inputs)
+        if out is not None:
+            outs = tuple(o.view(_np.ndarray) if isinstance(o, RealBuffer) else o for o in out)
+            getattr(ufunc, method)(*ins, out=outs, **kw)
+            for o, ob in zip(out, outs):
+                if isinstance(o, RealBuffer):
+                    ob[...] = _realize(_np.array(ob, dtype=object))
+            return out[0] if len(out) == 1 else out
+        return getattr(ufunc, method)(*ins, **kw)
+
+    def __setitem__(self, key, value):
+        _np.ndarray.__setitem__(self, key, _realize(value))
+
+
+def _real_buffer(arr):
+    if COMPLEX_STEP_COMPONENT[0]:
+        return arr.view(RealBuffer)
+    return arr
+
+
 def _elementwise(fn, npfn):
     def f(x, *a, **k):
         if isinstance(x, Sym):
@@ -141,19 +197,22 @@ class _NP:
     @staticmethod
     def zeros(shape, dtype=None, **k):
         if _float_dtype(dtype):
-            return _np.zeros(shape, dtype=float).astype(object)
+            out = _np.zeros(shape, dtype=float).astype(object)
+            return _real_buffer(out) if _real_dtype(dtype) else out
         return _np.zeros(shape, dtype=dtype, **k)
 
     @staticmethod
     def ones(shape, dtype=None, **k):
         if _float_dtype(dtype):
-            return _np.ones(shape, dtype=float).astype(object)
+            out = _np.ones(shape, dtype=float).astype(object)
+            return _real_buffer(out) if _real_dtype(dtype) else out
         return _np.ones(shape, dtype=dtype, **k)
 
     @staticmethod
     def empty(shape, dtype=None, **k):
         if _float_dtype(dtype):
-            return _np.zeros(shape, dtype=float).astype(object)
+            out = _np.zeros(shape, dtype=float).astype(object)
+            return _real_buffer(out) if _real_dtype(dtype) else out
         return _np.empty(shape, dtype=dtype, **k)
 
     @staticmethod
@@ -173,13 +232,18 @@ class _NP:
     @staticmethod
     def zeros_like(a, dtype=None, **k):
         if _float_dtype(dtype) and _np.asarray(a).dtype.kind not in "iub":
-            return _np.zeros(_np.shape(a), dtype=float).astype(object)
+            out = _np.zeros(_np.shape(a), dtype=float).astype(object)
+            # like a real array (an option, a constant): real; like an input (symbolic here, complex under complex step): not
+            real_like = (dtype is None and _np.asarray(a).dtype.kind == "f") or (dtype is not None and _real_dtype(dtype))
+            return _real_buffer(out) if real_like else out
         return _np.zeros_like(a, dtype=dtype, **k)
 
     @staticmethod
     def ones_like(a, dtype=None, **k):
         if _float_dtype(dtype) and _np.asarray(a).dtype.kind not in "iub":
-            return _np.ones(_np.shape(a), dtype=float).astype(object)
+            out = _np.ones(_np.shape(a), dtype=float).astype(object)
+            real_like = (dtype is None and _np.asarray(a).dtype.kind == "f") or (dtype is not None and _real_dtype(dtype))
+            return _real_buffer(out) if real_like else out
         return _np.ones_like(a, dtype=dtype, **k)
 
     @staticmethod
